@@ -26,6 +26,8 @@ def _fmt_args(args):
             out.append("1" if a else "0")
         elif isinstance(a, int):
             out.append(str(a))
+        elif a and isinstance(a[0], (list, tuple)):      # a list of lists: one segment per inner list (must be the last argument)
+            out += [" ".join(str(x) for x in inner) for inner in a]
         else:
             out.append(" ".join(str(x) for x in a))
     return " | ".join(out)
@@ -106,6 +108,58 @@ def rings_requests(report, thorough):
         for b in range(0, 9):
             reqs.append(("Rings.get_pair_variants", hr.get_pair_variants, [a, b]))
     return [r for r in reqs if r[0].split(".", 1)[1] in ok]
+
+
+def graphdef_requests(report, rng, thorough):
+    """the permutation branch of four `CayleyGraphDef` methods, as functions of the fields they read"""
+    from cayleypy.cayley_graph_def import CayleyGraphDef
+
+    ok = {k for k, v in report.items() if v.startswith("translated")}
+    reqs = []
+    defs = []
+    n_defs = 250 if not thorough else 1500
+    for _ in range(n_defs):
+        n = rng.randint(1, 6)
+        k = rng.randint(1, 5)
+        gens = []
+        for _j in range(k):
+            r = rng.random()
+            if gens and r < 0.25:
+                g = list(gens[rng.randrange(len(gens))])                      # a repeated generator
+            elif gens and r < 0.55:
+                src = gens[rng.randrange(len(gens))]
+                g = [0] * n
+                for i, x in enumerate(src):
+                    g[x] = i                                                   # the inverse of an earlier one
+            else:
+                g = list(range(n))
+                rng.shuffle(g)
+            gens.append(g)
+        central = [rng.randrange(n) for _ in range(n)] if rng.random() < 0.5 else list(range(n))
+        name_ints = [rng.randint(0, 9) for _ in gens]
+        nm = [] if rng.random() < 0.4 else [rng.randint(0, 9)]
+        defs.append((gens, central, name_ints, nm))
+    for gens, central, name_ints, nm in defs:
+        names = ["n" + str(i) for i in name_ints]
+        name = "" if not nm else "s" + str(nm[0])
+        d = CayleyGraphDef.create(gens, generator_names=names, central_state=central, name=name)
+        imap = d.generators_inverse_map
+        if "generators_inverse_map" in ok:
+            reqs.append(("GraphDef.generators_inverse_map", (lambda d=d: d.generators_inverse_map), [gens], None))
+        if "with_inverted_generators" in ok:
+            reqs.append(("GraphDef.with_inverted_generators", (lambda d=d: d.with_inverted_generators()), [central, gens], None))
+        if "make_inverse_closed" in ok:
+            def mic(d=d):
+                r = d.make_inverse_closed()
+                if r is d:
+                    return Raw({"gens": [list(g) for g in d.generators_permutations], "central": list(d.central_state), "names": list(d.generator_names), "name": d.name})
+                return r
+            reqs.append(("GraphDef.make_inverse_closed", mic, [name_ints, central, nm, [1 if imap is not None else 0], gens], None))
+        if "revert_path" in ok:
+            for _ in range(2):
+                path = [rng.randrange(len(gens) + (1 if rng.random() < 0.1 else 0)) for _ in range(rng.randint(0, 6))]
+                reqs.append(("GraphDef.revert_path", (lambda d=d, path=path: d.revert_path(path)), [([1] + imap) if imap is not None else [0], path], None))
+    return reqs, CayleyGraphDef
 
 
 def perm_requests(rng, thorough):
@@ -199,7 +253,13 @@ def run(ck, report, rng, thorough=False, which=("perm", "fam")):
         reqs += gr
     if "rings" in which:
         reqs += rings_requests(report.get("hungarian_rings", {}), thorough)
-    lines = [f"{fn} ; {_fmt_args(args)}" for fn, _, args in reqs]
+    if "graphdef" in which:
+        gq, CGD2 = graphdef_requests(report.get("cayley_graph_def", {}), rng, thorough)
+        if CGD is None:
+            CGD = CGD2
+        reqs += gq
+    reqs = [(r[0], r[1], r[2], len(r) == 4) for r in reqs]
+    lines = [f"{fn} ; {_fmt_args(args)}" for fn, _, args, _ in reqs]
     r = subprocess.run(["lake", "env", "lean", "--run", "PyRun.lean"], cwd=LEAN_DIR, input="\n".join(lines) + "\n",
                        capture_output=True, text=True, timeout=1800)
     answers = r.stdout.split("\n")
@@ -233,9 +293,9 @@ def run(ck, report, rng, thorough=False, which=("perm", "fam")):
             G_CGD.create = staticmethod(fake_create2)
     n_cmp = 0
     try:
-        for (fn, f, args), ans in zip(reqs, answers):
+        for (fn, f, args, thunk), ans in zip(reqs, answers):
             try:
-                v = f(*args)
+                v = f() if thunk else f(*args)
                 want = "ok ; " + _render(v)
             except EXC_NONE:
                 want = "none"
